@@ -58,7 +58,23 @@ func kvSingleLiveVersion(r *core.Run) {
 		n := counter{}
 		cnt := 0
 		// the inserts into the head table
-		inserts := core.CallsTo(f, false, core.Named(tablePkg+".(*Table).Put", tablePkg+".(*Table).PutRaw"))
+		isInsert := core.Named(tablePkg+".(*Table).Put", tablePkg+".(*Table).PutRaw")
+		inserts := core.CallsTo(f, false, isInsert)
+		// the insert may be wrapped in a function literal of this function that is called here
+		// (a callback handed to the common write loop)
+		core.Instrs(f, func(in ssa.Instruction) {
+			c, ok := in.(ssa.CallInstruction)
+			if !ok || in.Parent() != f {
+				return
+			}
+			callee := c.Common().StaticCallee()
+			if callee == nil || callee.Parent() != f {
+				return
+			}
+			if len(core.CallsTo(callee, false, isInsert)) > 0 {
+				inserts = append(inserts, c)
+			}
+		})
 		for _, ins := range inserts {
 			cnt++
 			key := n.next(name + " insert into the head table")
@@ -399,12 +415,32 @@ func kvScanCursor(r *core.Run) {
 	isTS := core.IsFieldLoad("KVStore", "tableSize")
 	cnt := 0
 	n := counter{}
-	for _, ret := range core.Returns(f) {
-		v := core.ResultValue(ret, 0)
-		mul, ok := v.(*ssa.BinOp)
-		if !ok || mul.Op != token.MUL {
-			continue
+	// every cursor construction tableSize*coefficient in the function (returned directly or
+	// carried to the return through variables)
+	var muls []*ssa.BinOp
+	seenV := map[ssa.Value]bool{}
+	var back func(v ssa.Value)
+	back = func(v ssa.Value) {
+		if v == nil || seenV[v] {
+			return
 		}
+		seenV[v] = true
+		switch x := v.(type) {
+		case *ssa.Phi:
+			for _, e := range x.Edges {
+				back(e)
+			}
+		case *ssa.BinOp:
+			if x.Op == token.MUL && (isTS(x.X) || isTS(x.Y)) {
+				muls = append(muls, x)
+			}
+		}
+	}
+	for _, ret := range core.Returns(f) {
+		back(core.ResultValue(ret, 0))
+	}
+	for _, mul := range muls {
+		var ret ssa.Instruction = mul
 		var cf ssa.Value
 		if isTS(mul.X) {
 			cf = mul.Y
@@ -415,7 +451,7 @@ func kvScanCursor(r *core.Run) {
 		}
 		cnt++
 		key := n.next(name + " return tableSize*coefficient")
-		ok2, why := validCoefficient(cf, ret.Block(), nil, 0)
+		ok2, why := validCoefficient(core.SuccessValue(cf), ret.Block(), nil, 0)
 		r.Check(ok2, "cursor-names-existing-table", key, site(r, instrPos(ret)), why,
 			"the resume cursor is built from a coefficient that is not known to name an existing table ("+why+"): the table it should have named is skipped or the scan ends early")
 	}
